@@ -24,8 +24,8 @@ def run(ck):
     rng = random.Random(ck.seed * 7919 + 8)
     # --- allocator: random histories, full table after every step -------------------------------------
     cases, fails = [], []
-    for i in range(ck.scale(60, 1500)):
-        ops, style = hc.gen_history(rng, rng.choice([4, 10, 25, 60, 120] if not ck.thorough else [10, 60, 200, 600, 2000]))
+    for i in range(ck.scale(60, 500)):
+        ops, style = hc.gen_history(rng, rng.choice([4, 10, 25, 60, 120] if not ck.thorough else [10, 40, 120, 250, 500]))
         steps, fail = hc.run_history(ops)
         ck.count(len(steps), f'history-style={style}')
         ck.nontrivial(('h', style, len(steps), tuple(s[2] for s in steps[:8])))
@@ -34,9 +34,10 @@ def run(ck):
         cases.append(hc.coq_case(steps))
         if i < 2:
             ck.sample({'history': [f'{k}{a}' for k, a, _, _ in steps[:14]], 'style': style})
-    chunks = [cases[i:i + 20] for i in range(0, len(cases), 20)]
-    outs = ck.coq_eval_many('heap', [hc.cases_file(ch) for ch in chunks], jobs=12)
-    bad = [ci * 20 + j for ci, (ok, out) in enumerate(outs) for j in ((cg.parse_nat_list(out) if ok else None) or [])]
+    hsz = 20 if not ck.thorough else 6
+    chunks = [cases[i:i + hsz] for i in range(0, len(cases), hsz)]
+    outs = ck.coq_eval_many('heap', [hc.cases_file(ch) for ch in chunks], jobs=12, timeout=1500)
+    bad = [ci * hsz + j for ci, (ok, out) in enumerate(outs) for j in ((cg.parse_nat_list(out) if ok else None) or [])]
     ran = all(ok and cg.parse_nat_list(out) is not None for ok, out in outs)
     ck.obligation(f'Coq model of sim.Heap = implementation on {len(cases)} histories: returned location and full tables '
                   '(chunks, released, current_size, max_size) after every step', ran and not bad, 'correspondence', f'failing histories {bad[:8]}')
